@@ -111,7 +111,29 @@ struct Slot {
     /// milliseconds since context start when the current case began; 0 = idle
     started_ms: AtomicU64,
     case_no: AtomicU64,
+    /// kernel thread id of the worker (for its CPU clock in /proc)
+    tid: AtomicU64,
     label: Mutex<String>,
+}
+
+/// CPU time (user + system) consumed so far by a thread of this process, in milliseconds.
+fn thread_cpu_ms(tid: u64) -> Option<u64> {
+    let stat = std::fs::read_to_string(format!("/proc/self/task/{}/stat", tid)).ok()?;
+    // fields after the command name (which is in parentheses and may contain spaces)
+    let rest = &stat[stat.rfind(')')? + 2..];
+    let f: Vec<&str> = rest.split(' ').collect();
+    // rest starts at field 3 (state); utime is field 14, stime field 15
+    let utime: u64 = f.get(11)?.parse().ok()?;
+    let stime: u64 = f.get(12)?.parse().ok()?;
+    Some((utime + stime) * 10) // USER_HZ = 100
+}
+
+fn current_tid() -> u64 {
+    std::fs::read_link("/proc/thread-self")
+        .ok()
+        .and_then(|p| p.file_name().map(|n| n.to_string_lossy().to_string()))
+        .and_then(|n| n.parse().ok())
+        .unwrap_or(0)
 }
 
 #[derive(Clone, Debug)]
@@ -211,7 +233,7 @@ impl Ctx {
             threads,
             start: Instant::now(),
             wall_cap,
-            case_budget: Duration::from_secs(20),
+            case_budget: Duration::from_secs(std::env::var("VERIF_CASE_BUDGET_S").ok().and_then(|s| s.parse().ok()).unwrap_or(20)),
             verif_dir,
             known,
             known_sets,
@@ -222,7 +244,7 @@ impl Ctx {
             merged: Mutex::new(Stats::default()),
             samples: Mutex::new(Vec::new()),
             slots: (0..threads + 1)
-                .map(|_| Slot { started_ms: AtomicU64::new(0), case_no: AtomicU64::new(0), label: Mutex::new(String::new()) })
+                .map(|_| Slot { started_ms: AtomicU64::new(0), case_no: AtomicU64::new(0), tid: AtomicU64::new(0), label: Mutex::new(String::new()) })
                 .collect(),
             capped: AtomicBool::new(false),
             stopped_early: AtomicBool::new(false),
@@ -260,17 +282,33 @@ impl Ctx {
         let next = AtomicU64::new(0);
         let stop = AtomicBool::new(false);
         std::thread::scope(|sc| {
-            // watchdog
+            // watchdog: a case is a hang when its worker thread has burnt more CPU time than the
+            // budget inside that one case. Wall time alone is not trusted: the machine (or the whole
+            // VM) may be paused or overloaded; it only triggers after a much longer period.
             let wd = sc.spawn(|| {
+                // per slot: (case number first seen, thread CPU ms at that moment, wall ms at that moment)
+                let mut seen: Vec<(u64, u64, u64)> = vec![(u64::MAX, 0, 0); self.slots.len()];
                 while !stop.load(Ordering::Relaxed) {
-                    std::thread::sleep(Duration::from_millis(100));
+                    std::thread::sleep(Duration::from_millis(200));
                     let now = self.now_ms();
                     for (i, slot) in self.slots.iter().enumerate() {
                         let st = slot.started_ms.load(Ordering::Relaxed);
-                        if st != 0 && now > st && now - st > self.case_budget.as_millis() as u64 {
+                        let case_no = slot.case_no.load(Ordering::Relaxed);
+                        let tid = slot.tid.load(Ordering::Relaxed);
+                        if st == 0 || tid == 0 {
+                            seen[i].0 = u64::MAX;
+                            continue;
+                        }
+                        let cpu = thread_cpu_ms(tid).unwrap_or(0);
+                        if seen[i].0 != case_no {
+                            seen[i] = (case_no, cpu, now);
+                            continue;
+                        }
+                        let cpu_in_case = cpu.saturating_sub(seen[i].1);
+                        let wall_in_case = now.saturating_sub(seen[i].2);
+                        if cpu_in_case > self.case_budget.as_millis() as u64 || wall_in_case > 40 * self.case_budget.as_millis() as u64 {
                             let label = slot.label.lock().unwrap().clone();
-                            let case_no = slot.case_no.load(Ordering::Relaxed);
-                            self.report_hang(i, &label, case_no);
+                            self.report_hang(i, &label, case_no, cpu_in_case, wall_in_case);
                         }
                     }
                 }
@@ -281,6 +319,7 @@ impl Ctx {
                 let f = &f;
                 handles.push(sc.spawn(move || {
                     let mut w = Worker { ctx: self, id, stats: Stats::default(), samples: Vec::new(), ncases: 0 };
+                    self.slots[id].tid.store(current_tid(), Ordering::Relaxed);
                     loop {
                         if self.expired() {
                             self.capped.store(true, Ordering::Relaxed);
@@ -317,22 +356,37 @@ impl Ctx {
     /// Run a sequential section as worker (for small enumerations).
     pub fn seq<F>(&self, f: F)
     where
+        F: FnOnce(&mut Worker) + Send,
+    {
+        // run as a one-chunk parallel section so that the watchdog covers it
+        let cell = Mutex::new(Some(f));
+        self.par(1, |_, w| {
+            if let Some(f) = cell.lock().unwrap().take() {
+                f(w);
+            }
+        });
+    }
+
+    #[allow(dead_code)]
+    fn seq_unwatched<F>(&self, f: F)
+    where
         F: FnOnce(&mut Worker),
     {
         let mut w = Worker { ctx: self, id: self.threads, stats: Stats::default(), samples: Vec::new(), ncases: 0 };
+        self.slots[self.threads].tid.store(current_tid(), Ordering::Relaxed);
         f(&mut w);
         w.finish();
     }
 
-    fn report_hang(&self, worker: usize, label: &str, case_no: u64) -> ! {
+    fn report_hang(&self, worker: usize, label: &str, case_no: u64, cpu_ms: u64, wall_ms: u64) -> ! {
         let dir = format!("{}/replays", self.verif_dir);
         let _ = std::fs::create_dir_all(&dir);
         let path = format!("{}/{}-hang-{:016x}.json", dir, self.prop, fnv64(label.as_bytes()) ^ case_no);
         let v = json!({"property": self.prop, "kind": "hang", "label": label, "case_no": case_no, "worker": worker,
-            "what": format!("a single case ran longer than {} s", self.case_budget.as_secs())});
+            "what": format!("a single case consumed {} ms of CPU time ({} ms wall); budget {} s of CPU", cpu_ms, wall_ms, self.case_budget.as_secs())});
         let _ = std::fs::write(&path, serde_json::to_string_pretty(&v).unwrap());
         println!("VIOLATION property={} replay={}", self.prop, path);
-        println!("  hang: {} (case {} of that batch)", label, case_no);
+        println!("  hang: {} (case {} of that batch): {} ms CPU, {} ms wall in one case", label, case_no, cpu_ms, wall_ms);
         std::process::exit(1);
     }
 
@@ -513,6 +567,15 @@ impl<'a> Worker<'a> {
         slot.started_ms.store(self.ctx.now_ms(), Ordering::Relaxed);
         slot.case_no.fetch_add(1, Ordering::Relaxed);
         self.ncases += 1;
+        if self.ncases == 1 && std::env::var("VERIF_SELFTEST_HANG").is_ok() {
+            // self-test of the watchdog: burn CPU inside one case
+            let t = Instant::now();
+            let mut x = 0u64;
+            while t.elapsed() < Duration::from_secs(3600) {
+                x = x.wrapping_mul(6364136223846793005).wrapping_add(1);
+                std::hint::black_box(x);
+            }
+        }
         let stats = &mut self.stats;
         let r = match catch_unwind(AssertUnwindSafe(|| body(stats))) {
             Ok(r) => r,
